@@ -22,6 +22,24 @@ class Program:
                 d = json.load(fh)
             metas.append((d.get("test", False), f, d))
         metas.sort(key=lambda m: (m[0], m[1]))
+        # canonical names: the path an item has in its defining crate, keyed by its def-path hash
+        # (other crates may print it through a re-export)
+        H = {}
+        for is_test, f, d in metas:
+            for b in d["bodies"]:
+                if b.get("h"):
+                    H.setdefault(b["h"], b["id"])
+            for a in d["adts"]:
+                if a.get("h"):
+                    H.setdefault(a["h"], a["p"])
+            for c in d["consts"]:
+                if c.get("h"):
+                    H.setdefault(c["h"], c["p"])
+            for t in d.get("traits", []):
+                H.setdefault(t["h"], t["p"])
+        self.canon = H
+        for is_test, f, d in metas:
+            _canonicalise(d, H)
         for is_test, f, d in metas:
             self.crates.append({"crate": d["crate"], "test": is_test, "nbodies": d["nbodies"],
                                 "file": os.path.basename(f), "types": d.get("crate_types", "")})
@@ -77,6 +95,57 @@ class Program:
         if a is None:
             raise AnchorLost("type `%s` not found" % path)
         return a
+
+
+def _canon_const(c, H):
+    if "nameh" in c and c["nameh"] in H:
+        c["name"] = H[c["nameh"]]
+    if "fnh" in c and c["fnh"] in H:
+        c["fn"] = H[c["fnh"]]
+
+
+def _canon_operand(o, H):
+    if isinstance(o, dict) and "c" in o:
+        _canon_const(o["c"], H)
+
+
+def _canonicalise(d, H):
+    for i in d["impls"]:
+        if i.get("trait_h") in H:
+            i["trait"] = H[i["trait_h"]]
+    for b in d["bodies"]:
+        for blk in b["blocks"]:
+            for st in blk["st"]:
+                if st["k"] == "assign":
+                    r = st["r"]
+                    if r["k"] == "agg":
+                        if r.get("adth") in H:
+                            r["adt"] = H[r["adth"]]
+                        if r.get("defh") in H:
+                            r["def"] = H[r["defh"]]
+                        for o in r.get("ops", []):
+                            _canon_operand(o, H)
+                    for key in ("o", "a", "b"):
+                        if key in r:
+                            _canon_operand(r[key], H)
+            t = blk["term"]
+            if t["k"] == "call":
+                if t.get("fh") in H:
+                    t["f"] = H[t["fh"]]
+                if t.get("rfh") in H:
+                    t["rf"] = H[t["rfh"]]
+                if t.get("trh") in H:
+                    t["tr"] = H[t["trh"]]
+                for a in t["args"]:
+                    _canon_operand(a, H)
+                if "fop" in t:
+                    _canon_operand(t["fop"], H)
+            elif t["k"] == "switch":
+                _canon_operand(t["o"], H)
+            elif t["k"] == "assert":
+                _canon_operand(t["cond"], H)
+                for o in t.get("ops", []):
+                    _canon_operand(o, H)
 
 
 _norm_cache = {}
